@@ -13,10 +13,13 @@
   Both proofs have the same shape, so the step-preservation argument is done once, for an
   abstract `Kit` (an invariant `I` on states and a predicate `N` on rule names with the
   closure properties the argument needs), and instantiated twice.
+  Everything lives in namespace `Pest.FailPos` (several lemma files are imported together by
+  the root module; short names such as `lookup_mem` exist elsewhere).
 -/
 import PestModel.Lemmas.GenEq
 
 namespace Pest
+namespace FailPos
 
 /-! ### primitive matchers stay inside the input -/
 
@@ -176,4 +179,1542 @@ theorem optMatch_le (alts : List Alt) (star : Bool) (p q : Nat)
 
 end prim
 
+/-! ### names of the rule objects embedded in a tree -/
+
+mutual
+/-- names of all `.rule` nodes (built-in rule objects embedded in a tree), nested ones included -/
+def embNames : Expr → List String
+  | .rule n _ _ b => n :: embNames b
+  | .seq es => embNamesL es
+  | .choice es => embNamesL es
+  | .opt e => embNames e
+  | .rep e => embNames e
+  | .rep1 e => embNames e
+  | .repExact e _ => embNames e
+  | .repMin e _ => embNames e
+  | .repMax e _ => embNames e
+  | .repMinMax e _ _ => embNames e
+  | .andP e => embNames e
+  | .notP e => embNames e
+  | .group e _ => embNames e
+  | .push e => embNames e
+  | _ => []
+def embNamesL : List Expr → List String
+  | [] => []
+  | e :: es => embNames e ++ embNamesL es
+end
+
+theorem mem_embNamesL {n : String} : ∀ {es : List Expr}, n ∈ embNamesL es ↔ ∃ e ∈ es, n ∈ embNames e
+  | [] => by simp [embNamesL]
+  | e :: es => by simp [embNamesL, mem_embNamesL (es := es)]
+
+/-- every embedded rule name satisfies `N` -/
+def namesOK (N : String → Prop) (e : Expr) : Prop := ∀ n ∈ embNames e, N n
+
+namespace namesOK
+variable {N : String → Prop}
+theorem seq {es : List Expr} (h : namesOK N (.seq es)) : ∀ e ∈ es, namesOK N e :=
+  fun e he n hn => h n (by simp only [embNames]; exact mem_embNamesL.mpr ⟨e, he, hn⟩)
+theorem choice {es : List Expr} (h : namesOK N (.choice es)) : ∀ e ∈ es, namesOK N e :=
+  fun e he n hn => h n (by simp only [embNames]; exact mem_embNamesL.mpr ⟨e, he, hn⟩)
+theorem rule {n : String} {m : Nat} {sm : Bool} {b : Expr} (h : namesOK N (.rule n m sm b)) :
+    N n ∧ namesOK N b :=
+  ⟨h n (by simp [embNames]), fun x hx => h x (by simp [embNames, hx])⟩
+theorem opt {e : Expr} (h : namesOK N (.opt e)) : namesOK N e := fun n hn => h n (by simpa [embNames] using hn)
+theorem rep {e : Expr} (h : namesOK N (.rep e)) : namesOK N e := fun n hn => h n (by simpa [embNames] using hn)
+theorem rep1 {e : Expr} (h : namesOK N (.rep1 e)) : namesOK N e := fun n hn => h n (by simpa [embNames] using hn)
+theorem repExact {e : Expr} {k : Nat} (h : namesOK N (.repExact e k)) : namesOK N e :=
+  fun n hn => h n (by simpa [embNames] using hn)
+theorem repMin {e : Expr} {k : Nat} (h : namesOK N (.repMin e k)) : namesOK N e :=
+  fun n hn => h n (by simpa [embNames] using hn)
+theorem repMax {e : Expr} {k : Nat} (h : namesOK N (.repMax e k)) : namesOK N e :=
+  fun n hn => h n (by simpa [embNames] using hn)
+theorem repMinMax {e : Expr} {k l : Nat} (h : namesOK N (.repMinMax e k l)) : namesOK N e :=
+  fun n hn => h n (by simpa [embNames] using hn)
+theorem andP {e : Expr} (h : namesOK N (.andP e)) : namesOK N e := fun n hn => h n (by simpa [embNames] using hn)
+theorem notP {e : Expr} (h : namesOK N (.notP e)) : namesOK N e := fun n hn => h n (by simpa [embNames] using hn)
+theorem group {e : Expr} {t : Option String} (h : namesOK N (.group e t)) : namesOK N e :=
+  fun n hn => h n (by simpa [embNames] using hn)
+theorem push {e : Expr} (h : namesOK N (.push e)) : namesOK N e := fun n hn => h n (by simpa [embNames] using hn)
+theorem mk_opt {e : Expr} (h : namesOK N e) : namesOK N (.opt e) := fun n hn => h n (by simpa [embNames] using hn)
+theorem mk_rep {e : Expr} (h : namesOK N e) : namesOK N (.rep e) := fun n hn => h n (by simpa [embNames] using hn)
+end namesOK
+
+/-! ### grammar lookups return members of the rule table -/
+
+theorem lookup_mem_name {g : Grammar} {n : String} {r : Rule} (h : g.lookup n = some r) :
+    r ∈ g.rules ∧ r.name = n := by
+  unfold Grammar.lookup at h
+  exact ⟨List.mem_of_find?_eq_some h, by simpa using List.find?_some h⟩
+
+theorem fusedSkip_mem_rules {g : Grammar} {r : Rule} (h : g.fusedSkip = some r) : r ∈ g.rules := by
+  unfold Grammar.fusedSkip at h
+  cases hl : g.lookup "SKIP" with
+  | none => rw [hl] at h; cases h
+  | some r' =>
+    rw [hl] at h
+    simp only [] at h
+    split at h
+    · simp only [Option.some.injEq] at h; subst h; exact (lookup_mem_name hl).1
+    · cases h
+
+/-! ### the abstract invariant -/
+
+/-- `c'` differs from `c` only in components neither invariant looks at (user stack, atomic
+    depth, tag stack, negative-predicate depth, suppress flag) -/
+structure Core (c c' : PState) : Prop where
+  pos : c'.pos = c.pos
+  ph : c'.posHist = c.posHist
+  rs : c'.rstack = c.rstack
+  fp : c'.fpos = c.fpos
+  fe : c'.fexp = c.fexp
+  fu : c'.funexp = c.funexp
+  fs : c'.fstack = c.fstack
+
+theorem Core.refl (c : PState) : Core c c := ⟨rfl, rfl, rfl, rfl, rfl, rfl, rfl⟩
+theorem Core.trans {a b c : PState} (h1 : Core a b) (h2 : Core b c) : Core a c :=
+  ⟨h2.pos.trans h1.pos, h2.ph.trans h1.ph, h2.rs.trans h1.rs, h2.fp.trans h1.fp,
+   h2.fe.trans h1.fe, h2.fu.trans h1.fu, h2.fs.trans h1.fs⟩
+
+/-- an invariant `I` of parser states and a predicate `N` on rule names, closed under every
+    state operation the two models perform -/
+structure Kit (g : Grammar) (inp : Input) where
+  I : PState → Prop
+  N : String → Prop
+  core : ∀ {c c' : PState}, I c → Core c c' → I c'
+  setPos : ∀ {c : PState} (q : Nat), I c → (c.pos ≤ inp.size → c.pos ≤ q ∧ q ≤ inp.size) →
+    I { c with pos := q }
+  checkpoint : ∀ {c : PState}, I c → I c.checkpoint
+  ok : ∀ {c : PState}, I c → I c.ok
+  restore : ∀ {c : PState}, I c → I c.restore
+  push : ∀ {c : PState} (name : String), I c → N name → I { c with rstack := c.rstack.push name }
+  pop : ∀ {c : PState} {x : String} {rs : DStack String}, I c → c.rstack.pop = some (x, rs) →
+    I { c with rstack := rs }
+  fail : ∀ {c c' : PState} {rn : Option String} {force : Bool}, I c → (∀ n, rn = some n → N n) →
+    c.fail rn force = some c' → I c'
+  rule : ∀ r ∈ g.rules, N r.name ∧ namesOK N r.body
+
+/-! ### L1: every node preserves the invariant -/
+
+section generic
+variable {g : Grammar} {inp : Input} (K : Kit g inp)
+
+/-- what a semantic function must satisfy: the invariant is preserved by every finished call
+    on an expression whose embedded rule names are fine, and an `Identifier` that finished
+    referred to a defined rule -/
+def PK (rec : Sem1) : Prop :=
+  ∀ e c m c' ps, namesOK K.N e → K.I c → rec e c = .done m c' ps →
+    K.I c' ∧ (∀ n t, e = .ident n t → (g.lookup n).isSome = true)
+
+theorem failT_inv {c c' : PState} {m : Bool} {ps : List Pair} (hI : K.I c)
+    (h : L1.failT c = .done m c' ps) : K.I c' := by
+  unfold L1.failT at h
+  cases hf : c.fail none false with
+  | none => rw [hf] at h; cases h
+  | some c1 =>
+    rw [hf] at h
+    simp only [R1.done.injEq] at h
+    obtain ⟨_, rfl, _⟩ := h
+    exact K.fail hI (by intro n hn; cases hn) hf
+
+theorem ruleEnter_core (name : String) (mod : Nat) (d : PState) : Core d (L1.ruleEnter name mod d) := by
+  unfold L1.ruleEnter
+  split
+  · exact ⟨rfl, rfl, rfl, rfl, rfl, rfl, rfl⟩
+  · split
+    · exact ⟨rfl, rfl, rfl, rfl, rfl, rfl, rfl⟩
+    · exact Core.refl d
+
+theorem ruleExit_inv {name : String} {mod start : Nat} {matched m : Bool} {c2 c' : PState}
+    {children ps : List Pair} (hI : K.I c2)
+    (h : L1.ruleExit name mod start matched c2 children = .done m c' ps) : K.I c' := by
+  unfold L1.ruleExit at h
+  generalize hc3 : (if L1.ruleScoped name mod then ({ c2 with adepth := c2.adepth.restore } : PState) else c2) = c3 at h
+  have h3 : K.I c3 := by
+    subst hc3
+    split
+    · exact K.core hI ⟨rfl, rfl, rfl, rfl, rfl, rfl, rfl⟩
+    · exact hI
+  simp only [] at h
+  cases hp : c3.rstack.pop with
+  | none => simp only [hp] at h; cases h
+  | some q =>
+    obtain ⟨x, rs⟩ := q
+    simp only [hp] at h
+    have h4 := K.pop h3 hp
+    cases matched with
+    | false =>
+      simp only [Bool.not_false, ↓reduceIte, R1.done.injEq] at h
+      obtain ⟨_, rfl, _⟩ := h; exact h4
+    | true =>
+      simp only [Bool.not_true, Bool.false_eq_true, ↓reduceIte] at h
+      by_cases hS : hasBit mod SILENT = true
+      · simp only [hS, ↓reduceIte, R1.done.injEq] at h
+        obtain ⟨_, rfl, _⟩ := h; exact h4
+      · simp only [hS, Bool.false_eq_true, ↓reduceIte] at h
+        cases ht : c3.tagStack with
+        | nil =>
+          simp only [ht, R1.done.injEq] at h
+          obtain ⟨_, rfl, _⟩ := h
+          exact K.core h4 ⟨rfl, rfl, rfl, rfl, rfl, rfl, rfl⟩
+        | cons t ts =>
+          simp only [ht, R1.done.injEq] at h
+          obtain ⟨_, rfl, _⟩ := h
+          exact K.core h4 ⟨rfl, rfl, rfl, rfl, rfl, rfl, rfl⟩
+
+theorem ruleParse_inv {rec : Sem1} (hr : PK K rec) {name : String} {mod : Nat} {body : Expr}
+    {c c' : PState} {m : Bool} {ps : List Pair} (hN : K.N name) (hE : namesOK K.N body) (hI : K.I c)
+    (h : L1.ruleParse rec name mod body c = .done m c' ps) : K.I c' := by
+  unfold L1.ruleParse at h
+  have hen : K.I (L1.ruleEnter name mod { c with rstack := c.rstack.push name }) :=
+    K.core (K.push name hI hN) (ruleEnter_core _ _ _)
+  revert h
+  generalize L1.ruleEnter name mod { c with rstack := c.rstack.push name } = en at hen
+  cases hb : rec body en with
+  | oof => intro h; cases h
+  | exc k => intro h; cases h
+  | done m2 c2 ch =>
+    intro h
+    simp only [] at h
+    exact ruleExit_inv K (hr body en m2 c2 ch hE hen hb).1 h
+
+theorem withTag_done {tag : Option String} {c c' : PState} {body : PState → R1} {m : Bool}
+    {ps : List Pair} (h : L1.withTag tag c body = .done m c' ps) :
+    ∃ d m2 c2 ps2, Core c d ∧ body d = .done m2 c2 ps2 ∧ Core c2 c' := by
+  unfold L1.withTag at h
+  cases tag with
+  | none => exact ⟨c, m, c', ps, Core.refl c, h, Core.refl c'⟩
+  | some t =>
+    simp only [] at h
+    revert h
+    cases hb : body { c with tagStack := t :: c.tagStack } with
+    | oof => intro h; cases h
+    | exc k => intro h; cases h
+    | done m2 c2 ps2 =>
+      intro h
+      simp only [R1.done.injEq] at h
+      obtain ⟨_, rfl, _⟩ := h
+      exact ⟨{ c with tagStack := t :: c.tagStack }, m2, c2, ps2, ⟨rfl, rfl, rfl, rfl, rfl, rfl, rfl⟩, hb,
+        ⟨rfl, rfl, rfl, rfl, rfl, rfl, rfl⟩⟩
+
+theorem callRule_inv {rec : Sem1} (hr : PK K rec) {name : String} {c c' : PState} {m : Bool}
+    {ps : List Pair} (hI : K.I c) (h : L1.callRule g rec name c = .done m c' ps) :
+    K.I c' ∧ (g.lookup name).isSome = true := by
+  unfold L1.callRule at h
+  cases hl : g.lookup name with
+  | none => rw [hl] at h; cases h
+  | some r =>
+    rw [hl] at h
+    simp only [] at h
+    have hk := K.rule r (lookup_mem_name hl).1
+    exact ⟨ruleParse_inv K hr hk.1 hk.2 hI h, rfl⟩
+
+def TryI : L1.TryR → Prop
+  | .matched c _ => K.I c
+  | .no c => K.I c
+  | .stop r => ∀ m c' ps, r = .done m c' ps → K.I c'
+
+theorem tryTrivia_inv {rec : Sem1} (hr : PK K rec) (r : Option Rule)
+    (hmem : ∀ x, r = some x → x ∈ g.rules) {c : PState} (hI : K.I c) :
+    TryI K (L1.tryTrivia rec r c) := by
+  unfold L1.tryTrivia
+  cases r with
+  | none => exact hI
+  | some r =>
+    simp only []
+    have hk := K.rule r (hmem r rfl)
+    cases hb : L1.ruleParse rec r.name r.mod r.body c.checkpoint with
+    | oof => intro _ _ _ h; cases h
+    | exc k => intro _ _ _ h; cases h
+    | done m c1 ps =>
+      have := ruleParse_inv K hr hk.1 hk.2 (K.checkpoint hI) hb
+      cases m with
+      | true => exact K.ok this
+      | false => exact K.restore this
+
+theorem triviaLoop_inv {rec : Sem1} (hr : PK K rec) (ws cm : Option Rule)
+    (hws : ∀ x, ws = some x → x ∈ g.rules) (hcm : ∀ x, cm = some x → x ∈ g.rules) :
+    ∀ (k : Nat) (c : PState) (acc : List Pair) (m : Bool) (c' : PState) (ps : List Pair), K.I c →
+      L1.triviaLoop rec ws cm k c acc = .done m c' ps → K.I c' := by
+  intro k
+  induction k with
+  | zero => intro c acc m c' ps _ h; simp [L1.triviaLoop] at h
+  | succ k ih =>
+    intro c acc m c' ps hI h
+    simp only [L1.triviaLoop] at h
+    have h1 := tryTrivia_inv K hr ws hws hI
+    revert h h1
+    cases L1.tryTrivia rec ws c with
+    | matched c1 ps1 => intro h h1; exact ih _ _ _ _ _ h1 h
+    | stop r => intro h h1; exact h1 _ _ _ h
+    | no c1 =>
+      intro h h1
+      simp only [] at h
+      have h2 := tryTrivia_inv K hr cm hcm (c := c1) h1
+      revert h h2
+      cases L1.tryTrivia rec cm c1 with
+      | matched c2 ps2 => intro h h2; exact ih _ _ _ _ _ h2 h
+      | stop r => intro h h2; exact h2 _ _ _ h
+      | no c2 =>
+        intro h h2
+        simp only [R1.done.injEq] at h
+        obtain ⟨_, rfl, _⟩ := h; exact h2
+
+theorem parseTrivia_inv {rec : Sem1} (hr : PK K rec) (k : Nat) {c c' : PState} {m : Bool}
+    {ps : List Pair} (hI : K.I c) (h : L1.parseTrivia g rec k c = .done m c' ps) : K.I c' := by
+  unfold L1.parseTrivia at h
+  by_cases ha : c.adepth.val > 0
+  · simp only [ha, ↓reduceIte, R1.done.injEq] at h
+    obtain ⟨_, rfl, _⟩ := h; exact hI
+  · simp only [ha, ↓reduceIte] at h
+    cases hsk : g.fusedSkip with
+    | some skip =>
+      simp only [hsk] at h
+      have hk := K.rule skip (fusedSkip_mem_rules hsk)
+      exact ruleParse_inv K hr hk.1 hk.2 hI h
+    | none =>
+      simp only [hsk] at h
+      by_cases hn : ((g.lookup "WHITESPACE").isNone && (g.lookup "COMMENT").isNone) = true
+      · simp only [hn, ↓reduceIte, R1.done.injEq] at h
+        obtain ⟨_, rfl, _⟩ := h; exact hI
+      · simp only [hn, Bool.false_eq_true, ↓reduceIte] at h
+        have hs : K.I { c with suppress := true } := K.core hI ⟨rfl, rfl, rfl, rfl, rfl, rfl, rfl⟩
+        revert h
+        cases hl : L1.triviaLoop rec (g.lookup "WHITESPACE") (g.lookup "COMMENT") k { c with suppress := true } [] with
+        | oof => intro h; cases h
+        | exc kx => intro h; cases h
+        | done m2 c2 ps2 =>
+          intro h
+          simp only [R1.done.injEq] at h
+          obtain ⟨_, rfl, _⟩ := h
+          have := triviaLoop_inv K hr _ _ (fun x hx => (lookup_mem_name hx).1) (fun x hx => (lookup_mem_name hx).1)
+            k _ _ _ _ _ hs hl
+          exact K.core this ⟨rfl, rfl, rfl, rfl, rfl, rfl, rfl⟩
+
+theorem seqParse_inv {rec : Sem1} (hr : PK K rec) (k : Nat) :
+    ∀ (es : List Expr) (c : PState) (acc : List Pair) (m : Bool) (c' : PState) (ps : List Pair),
+      (∀ e ∈ es, namesOK K.N e) → K.I c → L1.seqParse g rec k es c acc = .done m c' ps → K.I c' := by
+  intro es
+  induction es with
+  | nil =>
+    intro c acc m c' ps _ hI h
+    simp only [L1.seqParse, R1.done.injEq] at h
+    obtain ⟨_, rfl, _⟩ := h; exact hI
+  | cons e rest ih =>
+    intro c acc m c' ps hE hI h
+    simp only [L1.seqParse] at h
+    revert h
+    cases hb : rec e c with
+    | oof => intro h; cases h
+    | exc kx => intro h; cases h
+    | done m1 c1 ps1 =>
+      have h1 := (hr e c m1 c1 ps1 (hE e (List.mem_cons_self ..)) hI hb).1
+      cases m1 with
+      | false =>
+        intro h
+        simp only [R1.done.injEq] at h
+        obtain ⟨_, rfl, _⟩ := h; exact h1
+      | true =>
+        intro h
+        simp only [] at h
+        by_cases hre : rest.isEmpty = true
+        · simp only [hre, ↓reduceIte, R1.done.injEq] at h
+          obtain ⟨_, rfl, _⟩ := h; exact h1
+        · simp only [hre, Bool.false_eq_true, ↓reduceIte] at h
+          revert h
+          cases ht : L1.parseTrivia g rec k c1 with
+          | oof => intro h; cases h
+          | exc kx => intro h; cases h
+          | done m2 c2 tps =>
+            intro h
+            simp only [] at h
+            exact ih c2 _ m c' ps (fun x hx => hE x (List.mem_cons_of_mem _ hx))
+              (parseTrivia_inv K hr k h1 ht) h
+
+theorem choiceParse_inv {rec : Sem1} (hr : PK K rec) :
+    ∀ (es : List Expr) (c : PState) (m : Bool) (c' : PState) (ps : List Pair),
+      (∀ e ∈ es, namesOK K.N e) → K.I c → L1.choiceParse rec es c = .done m c' ps → K.I c' := by
+  intro es
+  induction es with
+  | nil =>
+    intro c m c' ps _ hI h
+    simp only [L1.choiceParse, R1.done.injEq] at h
+    obtain ⟨_, rfl, _⟩ := h; exact hI
+  | cons e rest ih =>
+    intro c m c' ps hE hI h
+    simp only [L1.choiceParse] at h
+    revert h
+    cases hb : rec e c.checkpoint with
+    | oof => intro h; cases h
+    | exc kx => intro h; cases h
+    | done m1 c1 ps1 =>
+      have h1 := (hr e _ m1 c1 ps1 (hE e (List.mem_cons_self ..)) (K.checkpoint hI) hb).1
+      cases m1 with
+      | true =>
+        intro h
+        simp only [R1.done.injEq] at h
+        obtain ⟨_, rfl, _⟩ := h; exact K.ok h1
+      | false =>
+        intro h
+        simp only [] at h
+        exact ih _ m c' ps (fun x hx => hE x (List.mem_cons_of_mem _ hx)) (K.restore h1) h
+
+theorem repLoop_inv {rec : Sem1} (hr : PK K rec) (e : Expr) (hE : namesOK K.N e) (kk : Nat) :
+    ∀ (k : Nat) (first : Bool) (c : PState) (acc : List Pair) (m : Bool) (c' : PState) (ps : List Pair),
+      K.I c → L1.repLoop g rec e k kk first c acc = .done m c' ps → K.I c' := by
+  intro k
+  induction k with
+  | zero => intro first c acc m c' ps _ h; simp [L1.repLoop] at h
+  | succ k ih =>
+    intro first c acc m c' ps hI h
+    simp only [L1.repLoop] at h
+    have hT : ∀ m1 c1 tps, (if first = true then R1.done true c.checkpoint [] else
+        L1.parseTrivia g rec kk c.checkpoint) = .done m1 c1 tps → K.I c1 := by
+      intro m1 c1 tps ht
+      by_cases hf : first = true
+      · simp only [hf, ↓reduceIte, R1.done.injEq] at ht
+        obtain ⟨_, rfl, _⟩ := ht; exact K.checkpoint hI
+      · simp only [hf, Bool.false_eq_true, ↓reduceIte] at ht
+        exact parseTrivia_inv K hr kk (K.checkpoint hI) ht
+    revert h hT
+    cases (if first = true then R1.done true c.checkpoint [] else L1.parseTrivia g rec kk c.checkpoint) with
+    | oof => intro h _; cases h
+    | exc kx => intro h _; cases h
+    | done m1 c1 tps =>
+      intro h hT
+      have h1 := hT m1 c1 tps rfl
+      simp only [] at h
+      revert h
+      cases hb : rec e c1 with
+      | oof => intro h; cases h
+      | exc kx => intro h; cases h
+      | done m2 c2 ps2 =>
+        have h2 := (hr e c1 m2 c2 ps2 hE h1 hb).1
+        cases m2 with
+        | true => intro h; simp only [] at h; exact ih false _ _ m c' ps (K.ok h2) h
+        | false =>
+          intro h
+          simp only [R1.done.injEq] at h
+          obtain ⟨_, rfl, _⟩ := h; exact K.restore h2
+
+theorem popAllLoop_inv :
+    ∀ (k : Nat) (d : PState) (position : Nat) (m : Bool) (c' : PState) (ps : List Pair), K.I d →
+      (d.pos ≤ inp.size → d.pos ≤ position ∧ position ≤ inp.size) →
+      L1.popAllLoop inp k d position = .done m c' ps → K.I c' := by
+  intro k
+  induction k with
+  | zero => intro d position m c' ps _ _ h; simp [L1.popAllLoop] at h
+  | succ k ih =>
+    intro d position m c' ps hI hp h
+    simp only [L1.popAllLoop] at h
+    cases hpop : d.ustack.pop with
+    | none =>
+      simp only [hpop, R1.done.injEq] at h
+      obtain ⟨_, rfl, _⟩ := h
+      exact K.setPos position (K.ok hI) hp
+    | some q =>
+      obtain ⟨lit, us⟩ := q
+      simp only [hpop] at h
+      have h1 : K.I { d with ustack := us } := K.core hI ⟨rfl, rfl, rfl, rfl, rfl, rfl, rfl⟩
+      by_cases hm : startsWithAt inp lit position = true
+      · simp only [hm, ↓reduceIte] at h
+        have hle := startsWithAt_le inp lit position hm
+        refine ih _ _ m c' ps h1 ?_ h
+        intro hd
+        have := hp hd
+        exact ⟨Nat.le_trans this.1 (Nat.le_add_right _ _), hle⟩
+      · simp only [hm, Bool.false_eq_true, ↓reduceIte] at h
+        exact failT_inv K (K.restore h1) h
+
+theorem adv_inv {c : PState} (hI : K.I c) (len : Nat) (h : c.pos + len ≤ inp.size) :
+    K.I { c with pos := c.pos + len } :=
+  K.setPos _ hI (fun _ => ⟨Nat.le_add_right _ _, h⟩)
+
+theorem namesOK_replicate {N : String → Prop} {e : Expr} (h : namesOK N e) (n : Nat) :
+    ∀ x ∈ List.replicate n e, namesOK N x := by
+  intro x hx; rw [(List.mem_replicate.mp hx).2]; exact h
+
+theorem namesOK_append {N : String → Prop} {l1 l2 : List Expr} (h1 : ∀ x ∈ l1, namesOK N x)
+    (h2 : ∀ x ∈ l2, namesOK N x) : ∀ x ∈ l1 ++ l2, namesOK N x := by
+  intro x hx
+  rcases List.mem_append.mp hx with h | h
+  · exact h1 x h
+  · exact h2 x h
+
+theorem namesOK_single {N : String → Prop} {e : Expr} (h : namesOK N e) : ∀ x ∈ [e], namesOK N x := by
+  intro x hx; rw [List.mem_singleton.mp hx]; exact h
+
+/-- the name `NegativePredicate` records is fine when its operand has just matched -/
+theorem failedName_ok {e : Expr} (hE : namesOK K.N e)
+    (hid : ∀ n t, e = .ident n t → (g.lookup n).isSome = true) :
+    ∀ n, L1.failedName e = some n → K.N n := by
+  intro n hn
+  cases e with
+  | ident n' t =>
+    simp only [L1.failedName, Option.some.injEq] at hn; subst hn
+    obtain ⟨r, hl⟩ := Option.isSome_iff_exists.mp (hid n' t rfl)
+    obtain ⟨hm, hname⟩ := lookup_mem_name hl
+    rw [← hname]; exact (K.rule r hm).1
+  | rule n' md sm b =>
+    simp only [L1.failedName, Option.some.injEq] at hn; subst hn
+    exact hE.rule.1
+  | _ => simp [L1.failedName] at hn
+
+theorem step_pk (k : Nat) {rec : Sem1} (hr : PK K rec) : PK K (L1.step g inp k rec) := by
+  intro e c m c' ps hE hI h
+  refine ⟨?_, ?_⟩
+  · cases e with
+    | str s =>
+      simp only [L1.step] at h
+      by_cases hm : startsWithAt inp s c.pos = true
+      · simp only [hm, ↓reduceIte, R1.done.injEq] at h
+        obtain ⟨_, rfl, _⟩ := h
+        exact adv_inv K hI _ (startsWithAt_le inp s c.pos hm)
+      · simp only [hm, Bool.false_eq_true, ↓reduceIte] at h; exact failT_inv K hI h
+    | ci s =>
+      simp only [L1.step] at h
+      by_cases hm : startsWithAtCI inp s c.pos = true
+      · simp only [hm, ↓reduceIte, R1.done.injEq] at h
+        obtain ⟨_, rfl, _⟩ := h
+        exact adv_inv K hI _ (startsWithAtCI_le inp s c.pos hm)
+      · simp only [hm, Bool.false_eq_true, ↓reduceIte] at h; exact failT_inv K hI h
+    | range a b =>
+      simp only [L1.step] at h
+      cases hx : inp[c.pos]? with
+      | none => simp only [hx] at h; exact failT_inv K hI h
+      | some x =>
+        simp only [hx] at h
+        have hlt := getElem?_lt inp hx
+        by_cases hm : L1.inRange a b x = true
+        · simp only [hm, ↓reduceIte, R1.done.injEq] at h
+          obtain ⟨_, rfl, _⟩ := h
+          exact adv_inv K hI 1 hlt
+        · simp only [hm, Bool.false_eq_true, ↓reduceIte] at h; exact failT_inv K hI h
+    | ident name tag =>
+      simp only [L1.step] at h
+      obtain ⟨d, m2, c2, ps2, cd, hb, cc⟩ := withTag_done h
+      exact K.core (callRule_inv K hr (K.core hI cd) hb).1 cc
+    | rule name mod sm body =>
+      simp only [L1.step] at h
+      exact ruleParse_inv K hr hE.rule.1 hE.rule.2 hI h
+    | seq es => simp only [L1.step] at h; exact seqParse_inv K hr k es c [] m c' ps hE.seq hI h
+    | choice es => simp only [L1.step] at h; exact choiceParse_inv K hr es c m c' ps hE.choice hI h
+    | opt e =>
+      simp only [L1.step] at h
+      revert h
+      cases hb : rec e c.checkpoint with
+      | oof => intro h; cases h
+      | exc kx => intro h; cases h
+      | done m1 c1 ps1 =>
+        have h1 := (hr e _ m1 c1 ps1 hE.opt (K.checkpoint hI) hb).1
+        cases m1 with
+        | true => intro h; simp only [R1.done.injEq] at h; obtain ⟨_, rfl, _⟩ := h; exact K.ok h1
+        | false => intro h; simp only [R1.done.injEq] at h; obtain ⟨_, rfl, _⟩ := h; exact K.restore h1
+    | rep e => simp only [L1.step] at h; exact repLoop_inv K hr e hE.rep k k true c [] m c' ps hI h
+    | rep1 e =>
+      simp only [L1.step] at h
+      refine seqParse_inv K hr k _ c [] m c' ps ?_ hI h
+      exact namesOK_append (namesOK_single hE.rep1) (namesOK_single hE.rep1.mk_rep)
+    | repExact e n =>
+      simp only [L1.step] at h
+      exact seqParse_inv K hr k _ c [] m c' ps (namesOK_replicate hE.repExact n) hI h
+    | repMin e n =>
+      simp only [L1.step] at h
+      exact seqParse_inv K hr k _ c [] m c' ps
+        (namesOK_append (namesOK_replicate hE.repMin n) (namesOK_single hE.repMin.mk_rep)) hI h
+    | repMax e n =>
+      simp only [L1.step] at h
+      exact seqParse_inv K hr k _ c [] m c' ps (namesOK_replicate hE.repMax.mk_opt n) hI h
+    | repMinMax e m1 n =>
+      simp only [L1.step] at h
+      exact seqParse_inv K hr k _ c [] m c' ps
+        (namesOK_append (namesOK_replicate hE.repMinMax m1) (namesOK_replicate hE.repMinMax.mk_opt _)) hI h
+    | andP e =>
+      simp only [L1.step] at h
+      revert h
+      cases hb : rec e c.checkpoint with
+      | oof => intro h; cases h
+      | exc kx => intro h; cases h
+      | done m1 c1 ps1 =>
+        have h1 := (hr e _ m1 c1 ps1 hE.andP (K.checkpoint hI) hb).1
+        intro h; simp only [R1.done.injEq] at h; obtain ⟨_, rfl, _⟩ := h; exact K.restore h1
+    | notP e =>
+      simp only [L1.step] at h
+      have hc0 : K.I { c.checkpoint with negDepth := c.checkpoint.negDepth + 1 } :=
+        K.core (K.checkpoint hI) ⟨rfl, rfl, rfl, rfl, rfl, rfl, rfl⟩
+      revert h
+      cases hb : rec e { c.checkpoint with negDepth := c.checkpoint.negDepth + 1 } with
+      | oof => intro h; cases h
+      | exc kx => intro h; cases h
+      | done matched c1 ps1 =>
+        intro h
+        simp only [] at h
+        obtain ⟨h1, hid⟩ := hr e _ _ _ _ hE.notP hc0 hb
+        have h2 := K.restore h1
+        cases matched with
+        | false =>
+          simp only [Bool.false_eq_true, ↓reduceIte, R1.done.injEq] at h
+          obtain ⟨_, rfl, _⟩ := h
+          exact K.core h2 ⟨rfl, rfl, rfl, rfl, rfl, rfl, rfl⟩
+        | true =>
+          simp only [↓reduceIte] at h
+          cases hf : c1.restore.fail (L1.failedName e) true with
+          | none => rw [hf] at h; cases h
+          | some c3 =>
+            rw [hf] at h
+            simp only [R1.done.injEq] at h
+            obtain ⟨_, rfl, _⟩ := h
+            exact K.core (K.fail h2 (failedName_ok K hE.notP hid) hf) ⟨rfl, rfl, rfl, rfl, rfl, rfl, rfl⟩
+    | group e tag =>
+      simp only [L1.step] at h
+      obtain ⟨d, m2, c2, ps2, cd, hb, cc⟩ := withTag_done h
+      exact K.core (hr e d m2 c2 ps2 hE.group (K.core hI cd) hb).1 cc
+    | push e =>
+      simp only [L1.step] at h
+      revert h
+      cases hb : rec e c with
+      | oof => intro h; cases h
+      | exc kx => intro h; cases h
+      | done m1 c1 ps1 =>
+        have h1 := (hr e _ m1 c1 ps1 hE.push hI hb).1
+        cases m1 with
+        | true =>
+          intro h; simp only [R1.done.injEq] at h; obtain ⟨_, rfl, _⟩ := h
+          exact K.core h1 ⟨rfl, rfl, rfl, rfl, rfl, rfl, rfl⟩
+        | false => intro h; simp only [R1.done.injEq] at h; obtain ⟨_, rfl, _⟩ := h; exact h1
+    | pushLit s =>
+      simp only [L1.step, R1.done.injEq] at h
+      obtain ⟨_, rfl, _⟩ := h
+      exact K.core hI ⟨rfl, rfl, rfl, rfl, rfl, rfl, rfl⟩
+    | peekSlice a b =>
+      simp only [L1.step] at h
+      cases hq : L1.matchAll inp (pySlice c.ustack.items.reverse a b) c.pos with
+      | none => simp only [hq] at h; exact failT_inv K hI h
+      | some q =>
+        simp only [hq, R1.done.injEq] at h
+        obtain ⟨_, rfl, _⟩ := h
+        have := matchAll_le inp _ _ _ hq
+        exact K.setPos q hI (fun hp => ⟨this.1, this.2 hp⟩)
+    | peek =>
+      simp only [L1.step] at h
+      cases hv : c.ustack.peek with
+      | none => simp only [hv, R1.done.injEq] at h; obtain ⟨_, rfl, _⟩ := h; exact hI
+      | some v =>
+        simp only [hv] at h
+        by_cases hm : startsWithAt inp v c.pos = true
+        · simp only [hm, ↓reduceIte, R1.done.injEq] at h
+          obtain ⟨_, rfl, _⟩ := h
+          exact adv_inv K hI _ (startsWithAt_le inp v c.pos hm)
+        · simp only [hm, Bool.false_eq_true, ↓reduceIte] at h; exact failT_inv K hI h
+    | peekAll =>
+      simp only [L1.step] at h
+      cases hq : L1.matchAll inp c.ustack.items c.pos with
+      | none => simp only [hq] at h; exact failT_inv K hI h
+      | some q =>
+        simp only [hq, R1.done.injEq] at h
+        obtain ⟨_, rfl, _⟩ := h
+        have := matchAll_le inp _ _ _ hq
+        exact K.setPos q hI (fun hp => ⟨this.1, this.2 hp⟩)
+    | pop =>
+      simp only [L1.step] at h
+      cases hv : c.ustack.peek with
+      | none => simp only [hv, R1.done.injEq] at h; obtain ⟨_, rfl, _⟩ := h; exact hI
+      | some v =>
+        simp only [hv] at h
+        by_cases hm : startsWithAt inp v c.pos = true
+        · simp only [hm, ↓reduceIte] at h
+          cases hp : c.ustack.pop with
+          | none => simp only [hp] at h; cases h
+          | some q =>
+            obtain ⟨x, us⟩ := q
+            simp only [hp, R1.done.injEq] at h
+            obtain ⟨_, rfl, _⟩ := h
+            exact K.core (adv_inv K hI _ (startsWithAt_le inp v c.pos hm)) ⟨rfl, rfl, rfl, rfl, rfl, rfl, rfl⟩
+        · simp only [hm, Bool.false_eq_true, ↓reduceIte] at h; exact failT_inv K hI h
+    | popAll =>
+      simp only [L1.step] at h
+      exact popAllLoop_inv K _ _ _ m c' ps (K.checkpoint hI) (fun hp => ⟨Nat.le_refl _, hp⟩) h
+    | drop =>
+      simp only [L1.step] at h
+      cases hp : c.ustack.pop with
+      | none => simp only [hp] at h; exact failT_inv K hI h
+      | some q =>
+        obtain ⟨x, us⟩ := q
+        simp only [hp, R1.done.injEq] at h
+        obtain ⟨_, rfl, _⟩ := h
+        exact K.core hI ⟨rfl, rfl, rfl, rfl, rfl, rfl, rfl⟩
+    | anyB =>
+      simp only [L1.step] at h
+      by_cases hm : c.pos < inp.size
+      · simp only [hm, ↓reduceIte, R1.done.injEq] at h
+        obtain ⟨_, rfl, _⟩ := h
+        exact adv_inv K hI 1 hm
+      · simp only [hm, ↓reduceIte, R1.done.injEq] at h; obtain ⟨_, rfl, _⟩ := h; exact hI
+    | soiB => simp only [L1.step, R1.done.injEq] at h; obtain ⟨_, rfl, _⟩ := h; exact hI
+    | eoiB => simp only [L1.step, R1.done.injEq] at h; obtain ⟨_, rfl, _⟩ := h; exact hI
+    | uprop n =>
+      simp only [L1.step] at h
+      cases hx : inp[c.pos]? with
+      | none => simp only [hx, R1.done.injEq] at h; obtain ⟨_, rfl, _⟩ := h; exact hI
+      | some x =>
+        simp only [hx] at h
+        have hlt := getElem?_lt inp hx
+        by_cases hm : g.uprop n x = true
+        · simp only [hm, ↓reduceIte, R1.done.injEq] at h
+          obtain ⟨_, rfl, _⟩ := h
+          exact adv_inv K hI 1 hlt
+        · simp only [hm, Bool.false_eq_true, ↓reduceIte, R1.done.injEq] at h
+          obtain ⟨_, rfl, _⟩ := h; exact hI
+    | skipUntil subs =>
+      simp only [L1.step, R1.done.injEq] at h
+      obtain ⟨_, rfl, _⟩ := h
+      exact K.setPos _ hI (fun hp => skipUntilPos_le inp subs c.pos hp)
+    | optChoice alts star =>
+      simp only [L1.step] at h
+      cases hq : L1.optMatch g inp alts star c.pos with
+      | none => simp only [hq, R1.done.injEq] at h; obtain ⟨_, rfl, _⟩ := h; exact hI
+      | some q =>
+        simp only [hq, R1.done.injEq] at h
+        obtain ⟨_, rfl, _⟩ := h
+        have := optMatch_le inp g alts star c.pos q hq
+        exact K.setPos q hI (fun hp => ⟨this.1, this.2 hp⟩)
+  · intro n t he
+    subst he
+    simp only [L1.step] at h
+    obtain ⟨d, m2, c2, ps2, cd, hb, _⟩ := withTag_done h
+    exact (callRule_inv K hr (K.core hI cd) hb).2
+
+theorem run_pk : ∀ n, PK K (L1.run g inp n) := by
+  intro n
+  induction n with
+  | zero => intro e c m c' ps _ _ h; simp [L1.run] at h
+  | succ n ih => exact step_pk K n ih
+
+end generic
+
+/-! ### instance 1: positions stay in range -/
+
+/-- position, saved positions and furthest-failure position lie in `[k, len(input)]`
+    (`fpos` may still be the sentinel `-1`) -/
+structure Bounded (inp : Input) (k : Nat) (c : PState) : Prop where
+  lo : k ≤ c.pos
+  hi : c.pos ≤ inp.size
+  hist : ∀ p ∈ c.posHist, k ≤ p ∧ p ≤ inp.size
+  fp : c.fpos = -1 ∨ ((k : Int) ≤ c.fpos ∧ c.fpos ≤ (inp.size : Int))
+
+theorem bounded_init (inp : Input) (k : Nat) (hk : k ≤ inp.size) : Bounded inp k (PState.init k) :=
+  ⟨Nat.le_refl _, hk, by intro p hp; simp [PState.init] at hp, Or.inl rfl⟩
+
+/-- `fail()` leaves the furthest-failure position alone or moves it to the current position -/
+theorem fail_fpos {c c' : PState} {rn : Option String} {force : Bool}
+    (h : c.fail rn force = some c') : c'.fpos = c.fpos ∨ c'.fpos = (c.pos : Int) := by
+  unfold PState.fail at h
+  by_cases hs : ((c.negDepth > 0 && !force) || c.suppress) = true
+  · simp only [hs, ↓reduceIte, Option.some.injEq] at h; subst h; exact Or.inl rfl
+  · simp only [hs] at h
+    cases hn : c.failName rn with
+    | none => simp [hn] at h
+    | some nm =>
+      simp [hn] at h
+      subst h
+      rw [failRecord_fpos]
+      by_cases hgt : ((c.failPos none : Nat) : Int) > c.fpos
+      · rw [if_pos hgt]; exact Or.inr rfl
+      · rw [if_neg hgt]; exact Or.inl rfl
+
+theorem bounded_fail {inp : Input} {k : Nat} {c c' : PState} {rn : Option String} {force : Bool}
+    (hb : Bounded inp k c) (h : c.fail rn force = some c') : Bounded inp k c' := by
+  obtain ⟨h0, h1, _⟩ := fail_same h
+  refine ⟨by rw [h0]; exact hb.lo, by rw [h0]; exact hb.hi, by rw [h1]; exact hb.hist, ?_⟩
+  rcases fail_fpos h with hf | hf
+  · rw [hf]; exact hb.fp
+  · rw [hf]; exact Or.inr ⟨by have := hb.lo; omega, by have := hb.hi; omega⟩
+
+theorem bounded_restore {inp : Input} {k : Nat} {c : PState} (h : Bounded inp k c) :
+    Bounded inp k c.restore := by
+  have hp : k ≤ c.posHist.headD c.pos ∧ c.posHist.headD c.pos ≤ inp.size := by
+    cases hh : c.posHist with
+    | nil => exact ⟨h.lo, h.hi⟩
+    | cons x xs => exact h.hist x (by rw [hh]; exact List.mem_cons_self ..)
+  exact ⟨hp.1, hp.2, fun p hp' => h.hist p (List.mem_of_mem_tail hp'), h.fp⟩
+
+def boundedKit (g : Grammar) (inp : Input) (k : Nat) : Kit g inp where
+  I := Bounded inp k
+  N := fun _ => True
+  core := fun h cc => ⟨by rw [cc.pos]; exact h.lo, by rw [cc.pos]; exact h.hi,
+    by rw [cc.ph]; exact h.hist, by rw [cc.fp]; exact h.fp⟩
+  setPos := fun _ h hq => ⟨Nat.le_trans h.lo (hq h.hi).1, (hq h.hi).2, h.hist, h.fp⟩
+  checkpoint := fun {c} h => ⟨h.lo, h.hi, by
+    intro p hp
+    simp only [PState.checkpoint, List.mem_cons] at hp
+    rcases hp with rfl | hp
+    · exact ⟨h.lo, h.hi⟩
+    · exact h.hist p hp, h.fp⟩
+  ok := fun h => ⟨h.lo, h.hi, fun p hp => h.hist p (List.mem_of_mem_tail hp), h.fp⟩
+  restore := bounded_restore
+  push := fun _ h _ => ⟨h.lo, h.hi, h.hist, h.fp⟩
+  pop := fun h _ => ⟨h.lo, h.hi, h.hist, h.fp⟩
+  fail := fun h _ hf => bounded_fail h hf
+  rule := fun _ _ => ⟨trivial, fun _ _ => trivial⟩
+
+theorem namesOK_true (e : Expr) : namesOK (fun _ => True) e := fun _ _ => trivial
+
+/-- **every finished call of the interpreter model keeps all positions in range** -/
+theorem run_bounded (g : Grammar) (inp : Input) (k n : Nat) (e : Expr) (c c' : PState) (m : Bool)
+    (ps : List Pair) (hb : Bounded inp k c) (h : L1.run g inp n e c = .done m c' ps) :
+    Bounded inp k c' :=
+  (run_pk (boundedKit g inp k) n e c m c' ps (namesOK_true e) hb h).1
+
+theorem ruleParse_bounded (g : Grammar) (inp : Input) (k n : Nat) (name : String) (mod : Nat)
+    (body : Expr) (c c' : PState) (m : Bool) (ps : List Pair) (hb : Bounded inp k c)
+    (h : L1.ruleParse (L1.run g inp n) name mod body c = .done m c' ps) : Bounded inp k c' :=
+  ruleParse_inv (boundedKit g inp k) (run_pk _ n) trivial (namesOK_true body) hb h
+
+/-! ### instance 2: failure names are names of the grammar -/
+
+/-- the names a failure record may mention: the rules of the table and the rule objects
+    embedded in their trees (built-ins) -/
+def knownNames (g : Grammar) : List String :=
+  g.rules.map (·.name) ++ g.rules.flatMap (fun r => embNames r.body)
+
+/-- every rule object embedded in `e` is one the grammar knows -/
+def namesIn (g : Grammar) (e : Expr) : Prop := namesOK (· ∈ knownNames g) e
+
+instance (g : Grammar) (e : Expr) : Decidable (namesIn g e) := by
+  unfold namesIn namesOK; infer_instance
+
+theorem rule_name_known {g : Grammar} {r : Rule} (h : r ∈ g.rules) : r.name ∈ knownNames g :=
+  List.mem_append_left _ (List.mem_map.mpr ⟨r, h, rfl⟩)
+
+theorem rule_body_namesIn {g : Grammar} {r : Rule} (h : r ∈ g.rules) : namesIn g r.body :=
+  fun _ hn => List.mem_append_right _ (List.mem_flatMap.mpr ⟨r, h, hn⟩)
+
+/-- both lists of a delta-encoded stack contain only `P`-elements -/
+structure DAll {α : Type} (P : α → Prop) (d : DStack α) : Prop where
+  items : ∀ x ∈ d.items, P x
+  popped : ∀ x ∈ d.popped, P x
+
+namespace DAll
+variable {α : Type} {P : α → Prop} {d : DStack α}
+
+theorem snapshot (h : DAll P d) : DAll P d.snapshot := ⟨h.items, h.popped⟩
+
+theorem push (h : DAll P d) {x : α} (hx : P x) : DAll P (d.push x) :=
+  ⟨by intro y hy; simp only [DStack.push, List.mem_cons] at hy
+      rcases hy with rfl | hy
+      · exact hx
+      · exact h.items y hy, h.popped⟩
+
+theorem pop (h : DAll P d) {x : α} {d' : DStack α} (hp : d.pop = some (x, d')) : DAll P d' := by
+  rcases d with ⟨items, popped, lengths⟩
+  cases items with
+  | nil => simp [DStack.pop] at hp
+  | cons y rest =>
+    have hy : P y := h.items y (List.mem_cons_self ..)
+    have hrest : ∀ z ∈ rest, P z := fun z hz => h.items z (List.mem_cons_of_mem _ hz)
+    cases lengths with
+    | nil =>
+      simp only [DStack.pop, Option.some.injEq, Prod.mk.injEq] at hp
+      obtain ⟨_, rfl⟩ := hp
+      exact ⟨hrest, h.popped⟩
+    | cons q ls =>
+      obtain ⟨ic, rc⟩ := q
+      by_cases hq : rest.length + 1 = rc
+      · simp only [DStack.pop, List.length_cons, hq, ↓reduceIte, Option.some.injEq, Prod.mk.injEq] at hp
+        obtain ⟨_, rfl⟩ := hp
+        refine ⟨hrest, ?_⟩
+        intro z hz
+        simp only [List.mem_cons] at hz
+        rcases hz with rfl | hz
+        · exact hy
+        · exact h.popped z hz
+      · simp only [DStack.pop, List.length_cons, hq, ↓reduceIte, Option.some.injEq, Prod.mk.injEq] at hp
+        obtain ⟨_, rfl⟩ := hp
+        exact ⟨hrest, h.popped⟩
+
+theorem restore (h : DAll P d) : DAll P d.restore := by
+  unfold DStack.restore
+  cases hl : d.lengths with
+  | nil => exact ⟨by intro x hx; simp at hx, h.popped⟩
+  | cons q ls =>
+    obtain ⟨ic, rc⟩ := q
+    simp only []
+    refine ⟨?_, fun x hx => h.popped x (List.mem_of_mem_drop hx)⟩
+    intro x hx
+    rcases List.mem_append.mp hx with hx | hx
+    · exact h.popped x (List.mem_of_mem_take (List.mem_reverse.mp hx))
+    · exact h.items x (List.mem_of_mem_drop hx)
+
+theorem dropSnap (h : DAll P d) : DAll P d.dropSnap := by
+  unfold DStack.dropSnap
+  cases hl : d.lengths with
+  | nil => exact h
+  | cons q ls =>
+    obtain ⟨ic, rc⟩ := q
+    simp only []
+    cases ls with
+    | nil => exact ⟨h.items, fun x hx => h.popped x (List.mem_of_mem_drop hx)⟩
+    | cons q' ls' =>
+      obtain ⟨oc, orc⟩ := q'
+      simp only []
+      split
+      · refine ⟨h.items, ?_⟩
+        intro x hx
+        rcases List.mem_append.mp hx with hx | hx
+        · exact h.popped x (List.mem_of_mem_take (List.mem_of_mem_take hx))
+        · exact h.popped x (List.mem_of_mem_drop hx)
+      · exact ⟨h.items, fun x hx => h.popped x (List.mem_of_mem_drop hx)⟩
+
+end DAll
+
+structure Known (g : Grammar) (c : PState) : Prop where
+  rs : DAll (· ∈ knownNames g) c.rstack
+  fexp : ∀ p ∈ c.fexp, p.1 ∈ knownNames g
+  funexp : ∀ p ∈ c.funexp, p.1 ∈ knownNames g
+  fstack : ∀ n ∈ c.fstack, n ∈ knownNames g
+
+theorem known_init (g : Grammar) (k : Nat) : Known g (PState.init k) :=
+  ⟨⟨by intro x hx; simp [PState.init, DStack.empty] at hx, by intro x hx; simp [PState.init, DStack.empty] at hx⟩,
+   by intro x hx; simp [PState.init] at hx, by intro x hx; simp [PState.init] at hx,
+   by intro x hx; simp [PState.init] at hx⟩
+
+/-- `addLabel` keeps the keys it has or adds the given one -/
+theorem mem_addLabel {P : String → Prop} {n : String} (hn : P n) :
+    ∀ {l : List (String × Nat)}, (∀ p ∈ l, P p.1) → ∀ p ∈ PState.addLabel l n, P p.1
+  | [], _, p, hp => by
+    simp only [PState.addLabel, List.mem_singleton] at hp; subst hp; exact hn
+  | (k', cnt) :: r, hl, p, hp => by
+    simp only [PState.addLabel] at hp
+    have hhead : P k' := hl (k', cnt) (List.mem_cons_self ..)
+    have htail : ∀ p ∈ r, P p.1 := fun p hp => hl p (List.mem_cons_of_mem _ hp)
+    by_cases hk : k' = n
+    · simp only [hk, ↓reduceIte, List.mem_cons] at hp
+      rcases hp with rfl | hp
+      · exact hn
+      · exact htail p hp
+    · simp only [hk, ↓reduceIte, List.mem_cons] at hp
+      rcases hp with rfl | hp
+      · exact hhead
+      · exact mem_addLabel hn htail p hp
+
+theorem known_failRecord {g : Grammar} {c : PState} (h : Known g c) {name : String}
+    (hn : name ∈ knownNames g) (p : Nat) : Known g (c.failRecord name p) := by
+  have hone : ∀ q ∈ [(name, 1)], q.1 ∈ knownNames g := by
+    intro q hq; rw [List.mem_singleton.mp hq]; exact hn
+  have hnil : ∀ q ∈ ([] : List (String × Nat)), q.1 ∈ knownNames g := by intro q hq; cases hq
+  unfold PState.failRecord
+  simp only []
+  by_cases h1 : (p : Int) > c.fpos
+  · rw [if_pos h1]
+    refine ⟨h.rs, ?_, ?_, fun n hn' => h.rs.items n (List.mem_reverse.mp hn')⟩
+    · by_cases h3 : (c.negDepth % 2 == 1) = true
+      · simp only [h3, ↓reduceIte]; exact hnil
+      · simp only [h3, Bool.false_eq_true, ↓reduceIte]; exact hone
+    · by_cases h3 : (c.negDepth % 2 == 1) = true
+      · simp only [h3, ↓reduceIte]; exact hone
+      · simp only [h3, Bool.false_eq_true, ↓reduceIte]; exact hnil
+  · rw [if_neg h1]
+    by_cases h2 : (p : Int) = c.fpos
+    · rw [if_pos h2]
+      by_cases h3 : (c.negDepth % 2 == 1) = true
+      · rw [if_pos h3]; exact ⟨h.rs, h.fexp, mem_addLabel hn h.funexp, h.fstack⟩
+      · rw [if_neg h3]; exact ⟨h.rs, mem_addLabel hn h.fexp, h.funexp, h.fstack⟩
+    · rw [if_neg h2]; exact h
+
+theorem known_fail {g : Grammar} {c c' : PState} {rn : Option String} {force : Bool} (h : Known g c)
+    (hrn : ∀ n, rn = some n → n ∈ knownNames g) (hf : c.fail rn force = some c') : Known g c' := by
+  unfold PState.fail at hf
+  by_cases hs : ((c.negDepth > 0 && !force) || c.suppress) = true
+  · simp only [hs, ↓reduceIte, Option.some.injEq] at hf; subst hf; exact h
+  · simp only [hs] at hf
+    cases hn : c.failName rn with
+    | none => simp [hn] at hf
+    | some nm =>
+      simp [hn] at hf
+      subst hf
+      refine known_failRecord h ?_ _
+      have hhead : ∀ x, c.rstack.items.head? = some x → x ∈ knownNames g :=
+        fun x hx => h.rs.items x (List.mem_of_mem_head? hx)
+      unfold PState.failName at hn
+      cases rn with
+      | none => exact hhead nm hn
+      | some n =>
+        simp only [] at hn
+        by_cases he : n.isEmpty = true
+        · simp only [he, ↓reduceIte] at hn; exact hhead nm hn
+        · simp only [he, Bool.false_eq_true, ↓reduceIte, Option.some.injEq] at hn
+          subst hn; exact hrn n rfl
+
+def knownKit (g : Grammar) (inp : Input) : Kit g inp where
+  I := Known g
+  N := (· ∈ knownNames g)
+  core := fun h cc => ⟨by rw [cc.rs]; exact h.rs, by rw [cc.fe]; exact h.fexp,
+    by rw [cc.fu]; exact h.funexp, by rw [cc.fs]; exact h.fstack⟩
+  setPos := fun _ h _ => ⟨h.rs, h.fexp, h.funexp, h.fstack⟩
+  checkpoint := fun h => ⟨h.rs.snapshot, h.fexp, h.funexp, h.fstack⟩
+  ok := fun h => ⟨h.rs.dropSnap, h.fexp, h.funexp, h.fstack⟩
+  restore := fun h => ⟨h.rs.restore, h.fexp, h.funexp, h.fstack⟩
+  push := fun _ h hn => ⟨h.rs.push hn, h.fexp, h.funexp, h.fstack⟩
+  pop := fun h hp => ⟨h.rs.pop hp, h.fexp, h.funexp, h.fstack⟩
+  fail := fun h hrn hf => known_fail h hrn hf
+  rule := fun _ hr => ⟨rule_name_known hr, rule_body_namesIn hr⟩
+
+/-- **every finished call of the interpreter model on a tree of the grammar keeps the rule
+    stack and the failure record inside the grammar's names** -/
+theorem run_known (g : Grammar) (inp : Input) (n : Nat) (e : Expr) (c c' : PState) (m : Bool)
+    (ps : List Pair) (hE : namesIn g e) (hk : Known g c) (h : L1.run g inp n e c = .done m c' ps) :
+    Known g c' :=
+  (run_pk (knownKit g inp) n e c m c' ps hE hk h).1
+
+theorem ruleParse_known (g : Grammar) (inp : Input) (n : Nat) (r : Rule) (hr : r ∈ g.rules)
+    (c c' : PState) (m : Bool) (ps : List Pair) (hk : Known g c)
+    (h : L1.ruleParse (L1.run g inp n) r.name r.mod r.body c = .done m c' ps) : Known g c' :=
+  ruleParse_inv (knownKit g inp) (run_pk _ n) (rule_name_known hr) (rule_body_namesIn hr) hk h
+
+/-! ### LG: every template preserves the invariant -/
+
+section genericG
+variable {g : Grammar} {inp : Input} (K : Kit g inp)
+
+def PKG (rec : SemG) : Prop :=
+  ∀ e c ps0 m c' ps, namesOK K.N e → K.I c → rec e c ps0 = .done m c' ps →
+    K.I c' ∧ (∀ n t, e = .ident n t → (g.lookup n).isSome = true)
+
+theorem failTG_inv {c c' : PState} {m : Bool} {ps0 ps : List Pair} (hI : K.I c)
+    (h : LG.failT c ps0 = .done m c' ps) : K.I c' := by
+  unfold LG.failT at h
+  cases hf : c.fail none false with
+  | none => rw [hf] at h; cases h
+  | some c1 =>
+    rw [hf] at h
+    simp only [RG.done.injEq] at h
+    obtain ⟨_, rfl, _⟩ := h
+    exact K.fail hI (by intro n hn; cases hn) hf
+
+theorem ruleExitG_inv {name : String} {mod start : Nat} {matched m : Bool} {c2 c' : PState}
+    {children ps0 ps : List Pair} (hI : K.I c2)
+    (h : LG.ruleExitG name mod start matched c2 children ps0 = .done m c' ps) : K.I c' := by
+  unfold LG.ruleExitG at h
+  generalize hc3 : (if L1.ruleScoped name mod then ({ c2 with adepth := c2.adepth.restore } : PState) else c2) = c3 at h
+  have h3 : K.I c3 := by
+    subst hc3
+    split
+    · exact K.core hI ⟨rfl, rfl, rfl, rfl, rfl, rfl, rfl⟩
+    · exact hI
+  simp only [] at h
+  cases hp : c3.rstack.pop with
+  | none => simp only [hp] at h; cases h
+  | some q =>
+    obtain ⟨x, rs⟩ := q
+    simp only [hp] at h
+    have h4 := K.pop h3 hp
+    cases matched with
+    | false =>
+      simp only [Bool.not_false, ↓reduceIte, RG.done.injEq] at h
+      obtain ⟨_, rfl, _⟩ := h; exact h4
+    | true =>
+      simp only [Bool.not_true, Bool.false_eq_true, ↓reduceIte] at h
+      by_cases hS : hasBit mod SILENT = true
+      · simp only [hS, ↓reduceIte, RG.done.injEq] at h
+        obtain ⟨_, rfl, _⟩ := h; exact h4
+      · simp only [hS, Bool.false_eq_true, ↓reduceIte] at h
+        cases ht : c3.tagStack with
+        | nil =>
+          simp only [ht, RG.done.injEq] at h
+          obtain ⟨_, rfl, _⟩ := h
+          exact K.core h4 ⟨rfl, rfl, rfl, rfl, rfl, rfl, rfl⟩
+        | cons t ts =>
+          simp only [ht, RG.done.injEq] at h
+          obtain ⟨_, rfl, _⟩ := h
+          exact K.core h4 ⟨rfl, rfl, rfl, rfl, rfl, rfl, rfl⟩
+
+theorem ruleG_inv {rec : SemG} (hr : PKG K rec) {name : String} {mod : Nat} {body : Expr}
+    {c c' : PState} {m : Bool} {ps0 ps : List Pair} (hN : K.N name) (hE : namesOK K.N body)
+    (hI : K.I c) (h : LG.ruleG rec name mod body c ps0 = .done m c' ps) : K.I c' := by
+  unfold LG.ruleG at h
+  have hen : K.I (L1.ruleEnter name mod { c with rstack := c.rstack.push name }) :=
+    K.core (K.push name hI hN) (ruleEnter_core _ _ _)
+  revert h
+  generalize L1.ruleEnter name mod { c with rstack := c.rstack.push name } = en at hen
+  cases hb : rec body en [] with
+  | oof => intro h; cases h
+  | exc k => intro h; cases h
+  | done m2 c2 ch =>
+    intro h
+    simp only [] at h
+    exact ruleExitG_inv K (hr body en [] m2 c2 ch hE hen hb).1 h
+
+theorem callRuleG_inv {rec : SemG} (hr : PKG K rec) {name : String} {c c' : PState} {m : Bool}
+    {ps0 ps : List Pair} (hI : K.I c) (h : LG.callRuleG g rec name c ps0 = .done m c' ps) :
+    K.I c' ∧ (g.lookup name).isSome = true := by
+  unfold LG.callRuleG at h
+  cases hl : g.lookup name with
+  | none => rw [hl] at h; cases h
+  | some r =>
+    rw [hl] at h
+    simp only [] at h
+    have hk := K.rule r (lookup_mem_name hl).1
+    split at h
+    · cases h
+    · exact ⟨ruleG_inv K hr hk.1 hk.2 hI h, rfl⟩
+
+theorem withTagG_done {tag : Option String} {c c' : PState} {body : PState → RG} {m : Bool}
+    {ps : List Pair} (h : LG.withTagG tag c body = .done m c' ps) :
+    ∃ d m2 c2 ps2, Core c d ∧ body d = .done m2 c2 ps2 ∧ Core c2 c' := by
+  unfold LG.withTagG at h
+  cases tag with
+  | none => exact ⟨c, m, c', ps, Core.refl c, h, Core.refl c'⟩
+  | some t =>
+    simp only [] at h
+    revert h
+    cases hb : body { c with tagStack := t :: c.tagStack } with
+    | oof => intro h; cases h
+    | exc k => intro h; cases h
+    | done m2 c2 ps2 =>
+      intro h
+      simp only [RG.done.injEq] at h
+      obtain ⟨_, rfl, _⟩ := h
+      exact ⟨{ c with tagStack := t :: c.tagStack }, m2, c2, ps2, ⟨rfl, rfl, rfl, rfl, rfl, rfl, rfl⟩, hb,
+        ⟨rfl, rfl, rfl, rfl, rfl, rfl, rfl⟩⟩
+
+def TryGI : LG.TryG → Prop
+  | .matched c _ => K.I c
+  | .no c _ => K.I c
+  | .stop r => ∀ m c' ps, r = .done m c' ps → K.I c'
+
+theorem tryTriviaG_inv {rec : SemG} (hr : PKG K rec) (on : Bool) (name : String) {c : PState}
+    (ps0 : List Pair) (hI : K.I c) : TryGI K (LG.tryTriviaG g rec on name c ps0) := by
+  unfold LG.tryTriviaG
+  by_cases hon : on = true
+  · simp only [hon, Bool.not_true, Bool.false_eq_true, ↓reduceIte]
+    cases hb : LG.callRuleG g rec name c.checkpoint ps0 with
+    | oof => intro _ _ _ h; cases h
+    | exc k => intro _ _ _ h; cases h
+    | done m c1 ps =>
+      have := (callRuleG_inv K hr (K.checkpoint hI) hb).1
+      cases m with
+      | true => exact K.ok this
+      | false => exact K.restore this
+  · simp only [hon, Bool.not_false, ↓reduceIte]
+    exact hI
+
+theorem triviaLoopG_inv {rec : SemG} (hr : PKG K rec) (hasWs hasCm : Bool) :
+    ∀ (k : Nat) (c : PState) (ps0 : List Pair) (m : Bool) (c' : PState) (ps : List Pair), K.I c →
+      LG.triviaLoopG g rec hasWs hasCm k c ps0 = .done m c' ps → K.I c' := by
+  intro k
+  induction k with
+  | zero => intro c ps0 m c' ps _ h; simp [LG.triviaLoopG] at h
+  | succ k ih =>
+    intro c ps0 m c' ps hI h
+    simp only [LG.triviaLoopG] at h
+    have h1 := tryTriviaG_inv K hr hasWs "WHITESPACE" ps0 hI
+    revert h h1
+    cases LG.tryTriviaG g rec hasWs "WHITESPACE" c ps0 with
+    | matched c1 ps1 => intro h h1; exact ih _ _ _ _ _ h1 h
+    | stop r => intro h h1; exact h1 _ _ _ h
+    | no c1 ps1 =>
+      intro h h1
+      simp only [] at h
+      have h2 := tryTriviaG_inv K hr hasCm "COMMENT" (c := c1) ps1 h1
+      revert h h2
+      cases LG.tryTriviaG g rec hasCm "COMMENT" c1 ps1 with
+      | matched c2 ps2 => intro h h2; exact ih _ _ _ _ _ h2 h
+      | stop r => intro h h2; exact h2 _ _ _ h
+      | no c2 ps2 =>
+        intro h h2
+        simp only [RG.done.injEq] at h
+        obtain ⟨_, rfl, _⟩ := h; exact h2
+
+theorem parseTriviaG_inv {rec : SemG} (hr : PKG K rec) (k : Nat) {c c' : PState} {m : Bool}
+    {ps0 ps : List Pair} (hI : K.I c) (h : LG.parseTriviaG g rec k c ps0 = .done m c' ps) : K.I c' := by
+  unfold LG.parseTriviaG at h
+  simp only [] at h
+  split at h
+  · simp only [RG.done.injEq] at h; obtain ⟨_, rfl, _⟩ := h; exact hI
+  · split at h
+    · simp only [RG.done.injEq] at h; obtain ⟨_, rfl, _⟩ := h; exact hI
+    · split at h
+      · exact (callRuleG_inv K hr hI h).1
+      · have hs : K.I { c with suppress := true } := K.core hI ⟨rfl, rfl, rfl, rfl, rfl, rfl, rfl⟩
+        revert h
+        cases hl : LG.triviaLoopG g rec (g.defines "WHITESPACE") (g.defines "COMMENT") k
+            { c with suppress := true } ps0 with
+        | oof => intro h; cases h
+        | exc kx => intro h; cases h
+        | done m2 c2 ps2 =>
+          intro h
+          simp only [RG.done.injEq] at h
+          obtain ⟨_, rfl, _⟩ := h
+          have := triviaLoopG_inv K hr _ _ k _ _ _ _ _ hs hl
+          exact K.core this ⟨rfl, rfl, rfl, rfl, rfl, rfl, rfl⟩
+
+theorem seqG_inv {rec : SemG} (hr : PKG K rec) (k : Nat) :
+    ∀ (es : List Expr) (c : PState) (ps0 : List Pair) (m : Bool) (c' : PState) (ps : List Pair),
+      (∀ e ∈ es, namesOK K.N e) → K.I c → LG.seqG g rec k es c ps0 = .done m c' ps → K.I c' := by
+  intro es
+  induction es with
+  | nil =>
+    intro c ps0 m c' ps _ hI h
+    simp only [LG.seqG, RG.done.injEq] at h
+    obtain ⟨_, rfl, _⟩ := h; exact hI
+  | cons e rest ih =>
+    intro c ps0 m c' ps hE hI h
+    simp only [LG.seqG] at h
+    revert h
+    cases hb : rec e c ps0 with
+    | oof => intro h; cases h
+    | exc kx => intro h; cases h
+    | done m1 c1 ps1 =>
+      have h1 := (hr e c ps0 m1 c1 ps1 (hE e (List.mem_cons_self ..)) hI hb).1
+      cases m1 with
+      | false =>
+        intro h
+        simp only [RG.done.injEq] at h
+        obtain ⟨_, rfl, _⟩ := h; exact h1
+      | true =>
+        intro h
+        simp only [] at h
+        by_cases hre : rest.isEmpty = true
+        · simp only [hre, ↓reduceIte, RG.done.injEq] at h
+          obtain ⟨_, rfl, _⟩ := h; exact h1
+        · simp only [hre, Bool.false_eq_true, ↓reduceIte] at h
+          revert h
+          cases ht : LG.parseTriviaG g rec k c1 ps1 with
+          | oof => intro h; cases h
+          | exc kx => intro h; cases h
+          | done m2 c2 tps =>
+            intro h
+            simp only [] at h
+            exact ih c2 _ m c' ps (fun x hx => hE x (List.mem_cons_of_mem _ hx))
+              (parseTriviaG_inv K hr k h1 ht) h
+
+theorem choiceG_inv {rec : SemG} (hr : PKG K rec) :
+    ∀ (es : List Expr) (c : PState) (ps0 : List Pair) (m : Bool) (c' : PState) (ps : List Pair),
+      (∀ e ∈ es, namesOK K.N e) → K.I c → LG.choiceG rec es c ps0 = .done m c' ps → K.I c' := by
+  intro es
+  induction es with
+  | nil =>
+    intro c ps0 m c' ps _ hI h
+    simp only [LG.choiceG, RG.done.injEq] at h
+    obtain ⟨_, rfl, _⟩ := h; exact hI
+  | cons e rest ih =>
+    intro c ps0 m c' ps hE hI h
+    simp only [LG.choiceG] at h
+    revert h
+    cases hb : rec e c.checkpoint [] with
+    | oof => intro h; cases h
+    | exc kx => intro h; cases h
+    | done m1 c1 ps1 =>
+      have h1 := (hr e _ _ m1 c1 ps1 (hE e (List.mem_cons_self ..)) (K.checkpoint hI) hb).1
+      cases m1 with
+      | true =>
+        intro h
+        simp only [RG.done.injEq] at h
+        obtain ⟨_, rfl, _⟩ := h; exact K.ok h1
+      | false =>
+        intro h
+        simp only [] at h
+        exact ih _ _ m c' ps (fun x hx => hE x (List.mem_cons_of_mem _ hx)) (K.restore h1) h
+
+theorem repLoopG_inv {rec : SemG} (hr : PKG K rec) (e : Expr) (hE : namesOK K.N e) (kk : Nat) :
+    ∀ (k : Nat) (first : Bool) (c : PState) (ps0 : List Pair) (m : Bool) (c' : PState) (ps : List Pair),
+      K.I c → LG.repLoopG g rec e k kk first c ps0 = .done m c' ps → K.I c' := by
+  intro k
+  induction k with
+  | zero => intro first c ps0 m c' ps _ h; simp [LG.repLoopG] at h
+  | succ k ih =>
+    intro first c ps0 m c' ps hI h
+    simp only [LG.repLoopG] at h
+    have hT : ∀ m1 c1 tps, (if first = true then RG.done true c.checkpoint [] else
+        LG.parseTriviaG g rec kk c.checkpoint []) = .done m1 c1 tps → K.I c1 := by
+      intro m1 c1 tps ht
+      by_cases hf : first = true
+      · simp only [hf, ↓reduceIte, RG.done.injEq] at ht
+        obtain ⟨_, rfl, _⟩ := ht; exact K.checkpoint hI
+      · simp only [hf, Bool.false_eq_true, ↓reduceIte] at ht
+        exact parseTriviaG_inv K hr kk (K.checkpoint hI) ht
+    revert h hT
+    cases (if first = true then RG.done true c.checkpoint [] else LG.parseTriviaG g rec kk c.checkpoint []) with
+    | oof => intro h _; cases h
+    | exc kx => intro h _; cases h
+    | done m1 c1 tps =>
+      intro h hT
+      have h1 := hT m1 c1 tps rfl
+      simp only [] at h
+      revert h
+      cases hb : rec e c1 tps with
+      | oof => intro h; cases h
+      | exc kx => intro h; cases h
+      | done m2 c2 ps2 =>
+        have h2 := (hr e c1 tps m2 c2 ps2 hE h1 hb).1
+        cases m2 with
+        | true => intro h; simp only [] at h; exact ih false _ _ m c' ps (K.ok h2) h
+        | false =>
+          intro h
+          simp only [RG.done.injEq] at h
+          obtain ⟨_, rfl, _⟩ := h; exact K.restore h2
+
+theorem stepG_pk (k : Nat) {rec : SemG} (hr : PKG K rec) : PKG K (LG.step g inp k rec) := by
+  intro e c ps0 m c' ps hE hI h
+  refine ⟨?_, ?_⟩
+  · cases e with
+    | str s =>
+      simp only [LG.step] at h
+      by_cases hm : startsWithAt inp s c.pos = true
+      · simp only [hm, ↓reduceIte, RG.done.injEq] at h
+        obtain ⟨_, rfl, _⟩ := h
+        exact adv_inv K hI _ (startsWithAt_le inp s c.pos hm)
+      · simp only [hm, Bool.false_eq_true, ↓reduceIte] at h; exact failTG_inv K hI h
+    | ci s =>
+      simp only [LG.step] at h
+      by_cases hm : startsWithAtCI inp s c.pos = true
+      · simp only [hm, ↓reduceIte, RG.done.injEq] at h
+        obtain ⟨_, rfl, _⟩ := h
+        exact adv_inv K hI _ (startsWithAtCI_le inp s c.pos hm)
+      · simp only [hm, Bool.false_eq_true, ↓reduceIte] at h; exact failTG_inv K hI h
+    | range a b =>
+      simp only [LG.step] at h
+      cases hx : inp[c.pos]? with
+      | none => simp only [hx] at h; exact failTG_inv K hI h
+      | some x =>
+        simp only [hx] at h
+        have hlt := getElem?_lt inp hx
+        by_cases hm : L1.inRange a b x = true
+        · simp only [hm, ↓reduceIte, RG.done.injEq] at h
+          obtain ⟨_, rfl, _⟩ := h
+          exact adv_inv K hI 1 hlt
+        · simp only [hm, Bool.false_eq_true, ↓reduceIte] at h; exact failTG_inv K hI h
+    | ident name tag =>
+      simp only [LG.step] at h
+      obtain ⟨d, m2, c2, ps2, cd, hb, cc⟩ := withTagG_done h
+      exact K.core (callRuleG_inv K hr (K.core hI cd) hb).1 cc
+    | rule name mod sm body =>
+      simp only [LG.step] at h
+      split at h
+      · cases h
+      · exact (hr body c ps0 m c' ps hE.rule.2 hI h).1
+    | seq es => simp only [LG.step] at h; exact seqG_inv K hr k es c ps0 m c' ps hE.seq hI h
+    | choice es => simp only [LG.step] at h; exact choiceG_inv K hr es c ps0 m c' ps hE.choice hI h
+    | opt e =>
+      simp only [LG.step] at h
+      revert h
+      cases hb : rec e c.checkpoint [] with
+      | oof => intro h; cases h
+      | exc kx => intro h; cases h
+      | done m1 c1 ps1 =>
+        have h1 := (hr e _ _ m1 c1 ps1 hE.opt (K.checkpoint hI) hb).1
+        cases m1 with
+        | true => intro h; simp only [RG.done.injEq] at h; obtain ⟨_, rfl, _⟩ := h; exact K.ok h1
+        | false => intro h; simp only [RG.done.injEq] at h; obtain ⟨_, rfl, _⟩ := h; exact K.restore h1
+    | rep e => simp only [LG.step] at h; exact repLoopG_inv K hr e hE.rep k k true c ps0 m c' ps hI h
+    | rep1 e =>
+      simp only [LG.step] at h
+      refine seqG_inv K hr k _ c ps0 m c' ps ?_ hI h
+      exact namesOK_append (namesOK_single hE.rep1) (namesOK_single hE.rep1.mk_rep)
+    | repExact e n =>
+      simp only [LG.step] at h
+      exact seqG_inv K hr k _ c ps0 m c' ps (namesOK_replicate hE.repExact n) hI h
+    | repMin e n =>
+      simp only [LG.step] at h
+      exact seqG_inv K hr k _ c ps0 m c' ps
+        (namesOK_append (namesOK_replicate hE.repMin n) (namesOK_single hE.repMin.mk_rep)) hI h
+    | repMax e n =>
+      simp only [LG.step] at h
+      exact seqG_inv K hr k _ c ps0 m c' ps (namesOK_replicate hE.repMax.mk_opt n) hI h
+    | repMinMax e m1 n =>
+      simp only [LG.step] at h
+      exact seqG_inv K hr k _ c ps0 m c' ps
+        (namesOK_append (namesOK_replicate hE.repMinMax m1) (namesOK_replicate hE.repMinMax.mk_opt _)) hI h
+    | andP e =>
+      simp only [LG.step] at h
+      revert h
+      cases hb : rec e c.checkpoint [] with
+      | oof => intro h; cases h
+      | exc kx => intro h; cases h
+      | done m1 c1 ps1 =>
+        have h1 := (hr e _ _ m1 c1 ps1 hE.andP (K.checkpoint hI) hb).1
+        intro h; simp only [RG.done.injEq] at h; obtain ⟨_, rfl, _⟩ := h; exact K.restore h1
+    | notP e =>
+      simp only [LG.step] at h
+      have hc0 : K.I { c.checkpoint with negDepth := c.checkpoint.negDepth + 1 } :=
+        K.core (K.checkpoint hI) ⟨rfl, rfl, rfl, rfl, rfl, rfl, rfl⟩
+      revert h
+      cases hb : rec e { c.checkpoint with negDepth := c.checkpoint.negDepth + 1 } [] with
+      | oof => intro h; cases h
+      | exc kx => intro h; cases h
+      | done matched c1 ps1 =>
+        intro h
+        simp only [] at h
+        obtain ⟨h1, hid⟩ := hr e _ _ _ _ _ hE.notP hc0 hb
+        have h2 := K.restore h1
+        cases matched with
+        | false =>
+          simp only [Bool.false_eq_true, ↓reduceIte, RG.done.injEq] at h
+          obtain ⟨_, rfl, _⟩ := h
+          exact K.core h2 ⟨rfl, rfl, rfl, rfl, rfl, rfl, rfl⟩
+        | true =>
+          simp only [↓reduceIte] at h
+          cases hf : c1.restore.fail (L1.failedName e) true with
+          | none => rw [hf] at h; cases h
+          | some c3 =>
+            rw [hf] at h
+            simp only [RG.done.injEq] at h
+            obtain ⟨_, rfl, _⟩ := h
+            exact K.core (K.fail h2 (failedName_ok K hE.notP hid) hf) ⟨rfl, rfl, rfl, rfl, rfl, rfl, rfl⟩
+    | group e tag =>
+      simp only [LG.step] at h
+      obtain ⟨d, m2, c2, ps2, cd, hb, cc⟩ := withTagG_done h
+      exact K.core (hr e d ps0 m2 c2 ps2 hE.group (K.core hI cd) hb).1 cc
+    | push e =>
+      simp only [LG.step] at h
+      revert h
+      cases hb : rec e c ps0 with
+      | oof => intro h; cases h
+      | exc kx => intro h; cases h
+      | done m1 c1 ps1 =>
+        have h1 := (hr e _ _ m1 c1 ps1 hE.push hI hb).1
+        cases m1 with
+        | true =>
+          intro h; simp only [RG.done.injEq] at h; obtain ⟨_, rfl, _⟩ := h
+          exact K.core h1 ⟨rfl, rfl, rfl, rfl, rfl, rfl, rfl⟩
+        | false => intro h; simp only [RG.done.injEq] at h; obtain ⟨_, rfl, _⟩ := h; exact h1
+    | pushLit s =>
+      simp only [LG.step, RG.done.injEq] at h
+      obtain ⟨_, rfl, _⟩ := h
+      exact K.core hI ⟨rfl, rfl, rfl, rfl, rfl, rfl, rfl⟩
+    | peekSlice a b =>
+      simp only [LG.step, LG.matchAllG] at h
+      cases hq : L1.matchAll inp (pySlice c.ustack.items.reverse a b) c.pos with
+      | none => simp only [hq] at h; exact failTG_inv K hI h
+      | some q =>
+        simp only [hq, RG.done.injEq] at h
+        obtain ⟨_, rfl, _⟩ := h
+        have := matchAll_le inp _ _ _ hq
+        exact K.setPos q hI (fun hp => ⟨this.1, this.2 hp⟩)
+    | peek =>
+      simp only [LG.step] at h
+      cases hv : c.ustack.peek with
+      | none => simp only [hv, RG.done.injEq] at h; obtain ⟨_, rfl, _⟩ := h; exact hI
+      | some v =>
+        simp only [hv] at h
+        by_cases hm : startsWithAt inp v c.pos = true
+        · simp only [hm, ↓reduceIte, RG.done.injEq] at h
+          obtain ⟨_, rfl, _⟩ := h
+          exact adv_inv K hI _ (startsWithAt_le inp v c.pos hm)
+        · simp only [hm, Bool.false_eq_true, ↓reduceIte] at h; exact failTG_inv K hI h
+    | peekAll =>
+      simp only [LG.step, LG.matchAllG] at h
+      cases hq : L1.matchAll inp c.ustack.items c.pos with
+      | none => simp only [hq] at h; exact failTG_inv K hI h
+      | some q =>
+        simp only [hq, RG.done.injEq] at h
+        obtain ⟨_, rfl, _⟩ := h
+        have := matchAll_le inp _ _ _ hq
+        exact K.setPos q hI (fun hp => ⟨this.1, this.2 hp⟩)
+    | pop =>
+      simp only [LG.step] at h
+      cases hv : c.ustack.peek with
+      | none => simp only [hv, RG.done.injEq] at h; obtain ⟨_, rfl, _⟩ := h; exact hI
+      | some v =>
+        simp only [hv] at h
+        by_cases hm : startsWithAt inp v c.pos = true
+        · simp only [hm, ↓reduceIte] at h
+          cases hp : c.ustack.pop with
+          | none => simp only [hp] at h; cases h
+          | some q =>
+            obtain ⟨x, us⟩ := q
+            simp only [hp, RG.done.injEq] at h
+            obtain ⟨_, rfl, _⟩ := h
+            exact K.core (adv_inv K hI _ (startsWithAt_le inp v c.pos hm)) ⟨rfl, rfl, rfl, rfl, rfl, rfl, rfl⟩
+        · simp only [hm, Bool.false_eq_true, ↓reduceIte] at h; exact failTG_inv K hI h
+    | popAll =>
+      simp only [LG.step, LG.matchAllG] at h
+      cases hq : L1.matchAll inp c.ustack.items c.pos with
+      | none => simp only [hq] at h; exact failTG_inv K hI h
+      | some q =>
+        simp only [hq, RG.done.injEq] at h
+        obtain ⟨_, rfl, _⟩ := h
+        have := matchAll_le inp _ _ _ hq
+        exact K.core (K.setPos q hI (fun hp => ⟨this.1, this.2 hp⟩)) ⟨rfl, rfl, rfl, rfl, rfl, rfl, rfl⟩
+    | drop =>
+      simp only [LG.step] at h
+      cases hp : c.ustack.pop with
+      | none => simp only [hp] at h; exact failTG_inv K hI h
+      | some q =>
+        obtain ⟨x, us⟩ := q
+        simp only [hp, RG.done.injEq] at h
+        obtain ⟨_, rfl, _⟩ := h
+        exact K.core hI ⟨rfl, rfl, rfl, rfl, rfl, rfl, rfl⟩
+    | anyB =>
+      simp only [LG.step] at h
+      by_cases hm : c.pos < inp.size
+      · simp only [hm, ↓reduceIte, RG.done.injEq] at h
+        obtain ⟨_, rfl, _⟩ := h
+        exact adv_inv K hI 1 hm
+      · simp only [hm, ↓reduceIte, RG.done.injEq] at h; obtain ⟨_, rfl, _⟩ := h; exact hI
+    | soiB => simp only [LG.step, RG.done.injEq] at h; obtain ⟨_, rfl, _⟩ := h; exact hI
+    | eoiB => simp only [LG.step, RG.done.injEq] at h; obtain ⟨_, rfl, _⟩ := h; exact hI
+    | uprop n =>
+      simp only [LG.step] at h
+      cases hx : inp[c.pos]? with
+      | none => simp only [hx, RG.done.injEq] at h; obtain ⟨_, rfl, _⟩ := h; exact hI
+      | some x =>
+        simp only [hx] at h
+        have hlt := getElem?_lt inp hx
+        by_cases hm : g.uprop n x = true
+        · simp only [hm, ↓reduceIte, RG.done.injEq] at h
+          obtain ⟨_, rfl, _⟩ := h
+          exact adv_inv K hI 1 hlt
+        · simp only [hm, Bool.false_eq_true, ↓reduceIte, RG.done.injEq] at h
+          obtain ⟨_, rfl, _⟩ := h; exact hI
+    | skipUntil subs =>
+      simp only [LG.step, RG.done.injEq] at h
+      obtain ⟨_, rfl, _⟩ := h
+      exact K.setPos _ hI (fun hp => skipUntilPos_le inp subs c.pos hp)
+    | optChoice alts star =>
+      simp only [LG.step] at h
+      cases hq : L1.optMatch g inp alts star c.pos with
+      | none => simp only [hq, RG.done.injEq] at h; obtain ⟨_, rfl, _⟩ := h; exact hI
+      | some q =>
+        simp only [hq, RG.done.injEq] at h
+        obtain ⟨_, rfl, _⟩ := h
+        have := optMatch_le inp g alts star c.pos q hq
+        exact K.setPos q hI (fun hp => ⟨this.1, this.2 hp⟩)
+  · intro n t he
+    subst he
+    simp only [LG.step] at h
+    obtain ⟨d, m2, c2, ps2, cd, hb, _⟩ := withTagG_done h
+    exact (callRuleG_inv K hr (K.core hI cd) hb).2
+
+theorem runG_pk : ∀ n, PKG K (LG.run g inp n) := by
+  intro n
+  induction n with
+  | zero => intro e c ps0 m c' ps _ _ h; simp [LG.run] at h
+  | succ n ih => exact stepG_pk K n ih
+
+end genericG
+
+/-- **every finished call of the generated-code model keeps all positions in range** -/
+theorem runG_bounded (g : Grammar) (inp : Input) (k n : Nat) (e : Expr) (c c' : PState) (m : Bool)
+    (ps0 ps : List Pair) (hb : Bounded inp k c) (h : LG.run g inp n e c ps0 = .done m c' ps) :
+    Bounded inp k c' :=
+  (runG_pk (boundedKit g inp k) n e c ps0 m c' ps (namesOK_true e) hb h).1
+
+theorem ruleG_bounded (g : Grammar) (inp : Input) (k n : Nat) (name : String) (mod : Nat)
+    (body : Expr) (c c' : PState) (m : Bool) (ps0 ps : List Pair) (hb : Bounded inp k c)
+    (h : LG.ruleG (LG.run g inp n) name mod body c ps0 = .done m c' ps) : Bounded inp k c' :=
+  ruleG_inv (boundedKit g inp k) (runG_pk _ n) trivial (namesOK_true body) hb h
+
+/-- **… and the rule stack and the failure record inside the grammar's names** -/
+theorem runG_known (g : Grammar) (inp : Input) (n : Nat) (e : Expr) (c c' : PState) (m : Bool)
+    (ps0 ps : List Pair) (hE : namesIn g e) (hk : Known g c)
+    (h : LG.run g inp n e c ps0 = .done m c' ps) : Known g c' :=
+  (runG_pk (knownKit g inp) n e c ps0 m c' ps hE hk h).1
+
+theorem ruleG_known (g : Grammar) (inp : Input) (n : Nat) (r : Rule) (hr : r ∈ g.rules)
+    (c c' : PState) (m : Bool) (ps0 ps : List Pair) (hk : Known g c)
+    (h : LG.ruleG (LG.run g inp n) r.name r.mod r.body c ps0 = .done m c' ps) : Known g c' :=
+  ruleG_inv (knownKit g inp) (runG_pk _ n) (rule_name_known hr) (rule_body_namesIn hr) hk h
+
+end FailPos
 end Pest
